@@ -259,8 +259,8 @@ func (w *clientWorld) genClientStream() []byte {
 			sb.WriteString(": keep-alive" + eol)
 		}
 		if ch.Chance(1, 3, "id field") {
-			ids := []string{"i" + strconv.Itoa(w.dataSeq), "", "a\x00b", "same", "x y", "07"}
-			sb.WriteString("id: " + ids[ch.Weighted([]int{6, 2, 1, 2, 1, 1}, "id value")] + eol)
+			ids := []string{"i" + strconv.Itoa(w.dataSeq), "", "a\x00b", "same", "x y", "07", "a\x01b" + strconv.Itoa(w.dataSeq), "t\tb", "q+r%41=" + strconv.Itoa(w.dataSeq)}
+			sb.WriteString("id: " + ids[ch.Weighted([]int{6, 2, 1, 2, 1, 1, 1, 1, 1}, "id value")] + eol)
 		}
 		if ch.Chance(1, 3, "event field") {
 			types := []string{"a", "b", "", "message", "*", "all"}
@@ -537,6 +537,15 @@ func (rt *clientRT) RoundTrip(req *http.Request) (*http.Response, error) {
 		w.o.fault("transport: stream cut with a read error")
 	case 2:
 		w.o.fault("transport: stream hangs until cancelled")
+	}
+	if end == 0 && a.endKind == 0 && ch.Chance(1, 2, "empty response with http.NoBody") {
+		// what net/http hands out for a response without a body (Content-Length: 0): a successful,
+		// validated connection like any other, which ends at once
+		a.connected, a.ended = w.sim.Elapsed(), w.sim.Elapsed()
+		w.o.probe("accepted response with http.NoBody")
+		w.sim.Logf("RoundTrip", "#%d empty response (http.NoBody)", a.n)
+		return &http.Response{StatusCode: 200, Status: "200 OK", Proto: "HTTP/1.1", ProtoMajor: 1, ProtoMinor: 1,
+			Header: http.Header{"Content-Type": []string{a.ctype}}, Body: http.NoBody, Request: req}, nil
 	}
 	body := &clientBody{w: w, a: a, end: end}
 	if ch.Chance(1, 3, "slow stream") {
@@ -1124,9 +1133,21 @@ func (w *clientWorld) afterObserver(ch *Chooser) {
 	}
 	// allTypes stands for SubscribeToAll; "*" and "all" are ordinary event types like any other
 	types := []string{"", "a", "b", "message", allTypes, "*", allTypes, "all"}
+	// half of the runs concentrate on one type, so that its set of callbacks keeps going from empty to
+	// one to two and back while events of that type arrive
+	focus, hasFocus := "", ch.Chance(1, 2, "runs around one event type")
+	if hasFocus {
+		focus = []string{"", "a", "b", "*"}[ch.Intn(4, "focus type")]
+	}
+	pickType := func(label string) string {
+		if hasFocus && ch.Chance(3, 4, label+" is the focus type") {
+			return focus
+		}
+		return types[ch.Intn(len(types), label)]
+	}
 	// before Connect
 	for i := 0; i < 4 && ch.Chance(1, 2, "callback before connect"); i++ {
-		t := types[ch.Intn(len(types), "callback type")]
+		t := pickType("callback type")
 		cb := w.newCB(t, t == allTypes)
 		w.subscribe(cb)
 		if ch.Chance(1, 5, "removed before connect") {
@@ -1139,6 +1160,35 @@ func (w *clientWorld) afterObserver(ch *Chooser) {
 		hot = w.cbs[1+ch.Intn(len(w.cbs)-1, "which hot callback")]
 	}
 	hotAt := ch.Range(1, 4, "hot removal after events")
+	// handover: the only callback of a type is removed while, at the same moment, another goroutine
+	// subscribes a new one for that type (an application replacing a handler)
+	if ch.Chance(1, 4, "handover of a type's only callback") {
+		used := map[string]bool{}
+		for _, cb := range w.cbs {
+			used[cb.typ] = true
+		}
+		var free []string
+		for _, t := range []string{"", "a", "b", "message", "*", "all"} {
+			if !used[t] {
+				free = append(free, t)
+			}
+		}
+		if len(free) > 0 {
+			ht := free[ch.Intn(len(free), "handover type")]
+			old := w.newCB(ht, false)
+			w.subscribe(old)
+			at := ch.Range(0, 4, "handover after events")
+			w.sim.Spawn("handover-remove", func() {
+				w.sim.WaitWeak("handover waits", func() bool { return w.dispatched >= at || w.connectReturned != 0 })
+				w.remove(old)
+			})
+			w.sim.Spawn("handover-subscribe", func() {
+				w.sim.WaitWeak("handover waits", func() bool { return w.dispatched >= at || w.connectReturned != 0 })
+				w.subscribe(w.newCB(ht, false))
+			})
+			w.o.probe("handover of a type's only callback")
+		}
+	}
 	// concurrently with Connect
 	nTasks := ch.Range(0, 3, "subscriber tasks")
 	for t := 0; t < nTasks; t++ {
@@ -1155,7 +1205,7 @@ func (w *clientWorld) afterObserver(ch *Chooser) {
 				w.sim.WaitWeak("subscriber waits", func() bool { return w.dispatched >= k || w.connectReturned != 0 })
 				switch ch.Weighted([]int{4, 3, 1, 1}, "subscription op") {
 				case 0:
-					ty := types[ch.Intn(len(types), "callback type")]
+					ty := pickType("callback type")
 					cb := w.newCB(ty, ty == allTypes)
 					mine = append(mine, cb)
 					w.subscribe(cb)
